@@ -69,16 +69,15 @@ CHECKS["C20"] = dict(
           "identical node_lon, node_lat, face_node_connectivity), hence single_change_detected (any one changed longitude / latitude / "
           "connectivity entry at any position by any different value, or another n_node / n_face / width / format ⇒ unequal in both "
           "orders and != True) and any_difference_detected; eq_refl (also with NaN), eq_symm, eq_trans, ne_iff_not_eq, copy_eq, "
-          "non_grid_false; gridEq_iff characterises == exactly. The converse (same ⇒ equal) is proved only for grids that store "
-          "node_lon/node_lat the same way (eq_complete_partial; counterexample coords_structure_violates_spec = known finding). "
-          "asis_violates_spec refutes the snapshot's `or` (repaired by fix c9c5774d). Tie (differential test): ~4k quick / ~39k thorough "
+          "non_grid_false; gridEq_iff / impl_meets_spec prove the whole Spec (equal <=> same format and identical arrays) for ALL pairs without "
+          "hypotheses, eq_ignores_coord_storage; the model is Grid.__eq__ with `and` (fix c9c5774d) comparing the variables (fix 0a4a6cbd); "
+          "coords_structure_violates_spec / gridEqCoords_iff (the DataArray.equals version) and asis_violates_spec (the snapshot's `or`) are kept as proved regression witnesses of the two earlier versions. Tie (differential test): ~4k quick / ~39k thorough "
           "generated pairs through the public constructors, the UGRID reader and sample files of 6 formats, all ordered pairs of a small "
           "family (every combination of differing fields), g==g, copies, 16 kinds of non-Grid operands; the Lean driver evaluates the "
           "decidable Spec (specB_iff) on observed arrays and outputs. Backing state: gridEqB transcribes xarray's lazy shortcut on dask-backed variables; backing_irrelevant / eqB_values_only prove that with faithful dask names (equal name => equal values, evaluated by Lean on the names observed for every pair) the result is the value-level gridEq, so chunk()/re-chunk/one-sided chunk/copy/isel/lazy open cannot change ==; unfaithful_names_break is the proved counterexample otherwise. The differential run repeats identical and one-entry-mutated pairs (both orders, == and !=) in all these backing states (Grid.chunk with random n_node/n_edge/n_face on both sides with the same or different arguments or on one side, copy, isel, derived tables, open_grid(chunks={})) with the value-level Spec as oracle (~780 dask pairs quick, ~6.5k thorough). eq_implies_same_shape / eqB_implies_same_shape (equal => same n_face and width, in every backing state), reshape_detected (same flattened connectivity incl. fills, other shape => unequal), flatten_blind_wrong (a flattened comparison calls 4 triangles / 3 quads / 2 hexagons over the same 12 nodes equal and violates the Spec). The differential run adds pairs equal under projections of the arrays: reshapes a x b / b x a / (ab/c) x c of the same flattening (ring families, every generated table, trailing fills), permuted / reversed rows, transposed tables, same multiset, same sum, middle-row / middle-entry changes, reversed coordinates, lengths only."),
     note=_TB + "Modelled, not verified: DataArray.equals (dims, NaN-aware elements, coordinates), IEEE == on bit patterns (compared "
          "per run with Lean Float, NumPy and xarray on special/random doubles), Python's reflected-comparison fallback, canonical "
-         "dimension names. 'Identical' is array identity (shape, NaN-in-place, +0 = -0, dtype ignored). One KNOWN-FINDING "
-         "(coords-structure) remains. dask's content tokenisation is not proved (namesFaithful is checked per observed pair); name collisions inside merged dask graphs are seen only through the value-level Spec. Reshaped / shuffled tables may be malformed faces; they are valid inputs of == (constructors accept them), calls that raise on them (isel) drop the pair.",
+         "dimension names. 'Identical' is array identity (shape, NaN-in-place, +0 = -0, dtype ignored). No known finding left (coords-structure repaired by fix 0a4a6cbd). dask's content tokenisation is not proved (namesFaithful is checked per observed pair); name collisions inside merged dask graphs are seen only through the value-level Spec. Reshaped / shuffled tables may be malformed faces; they are valid inputs of == (constructors accept them), calls that raise on them (isel) drop the pair.",
     technique="Lean 4 theorems over a hand model (bit-level IEEE equality, backing-independence under faithful dask names) + differential correspondence with Lean-evaluated spec",
 )
 
@@ -225,8 +224,8 @@ CHECKS["C14"] = dict(
           "the exact value of the returned doubles. The snapshot's lon/lat logic of point_within_gca failed on pole-related arcs "
           "(repaired by fix 87607001; as-is witnesses kept). Known findings: crossings missed when the candidate's plane residual "
           "exceeds MACHINE_EPSILON (~0.7%), exact on-arc points rejected by the same plane tolerance (~1e-5), end point within 1.41e-4 rad of a "
-          "pole snapped in extreme_gca_latitude. Purity: session_state_const / session_answers / runWith_pure (in EVERY sequence of calls on one arc object every answer is the answer on the original values, for any step that hands its state back unchanged and answers from the values) with onArc_congr / intersections_congr / extreme_congr. The bytes of every ndarray argument of every call are compared before/after the call (signature C14/<primitive>/modifies-input/arg=k), and 2-4 primitives are run in random order on ONE arc object (88% with an interior extreme; (2,3) array, list of arrays, Fortran order, row/column-strided views of a node array, list of row views), each answer required to equal the answer on a fresh object with the original values (C14/<primitive>/answer-depends-on-call-history)."),
-    note=_TB + "Modelled, not verified: IEEE evaluation inside the three functions (only tested, on inputs >=1e-6 rad from every decision "
+          "pole snapped in extreme_gca_latitude. Purity: session_state_const / session_answers / runWith_pure (in EVERY sequence of calls on one arc object every answer is the answer on the original values, for any step that hands its state back unchanged and answers from the values) with onArc_congr / intersections_congr / extreme_congr. The bytes of every ndarray argument of every call are compared before/after the call (signature C14/<primitive>/modifies-input/arg=k), and 2-4 primitives are run in random order on ONE arc object (88% with an interior extreme; (2,3) array, list of arrays, Fortran order, row/column-strided views of a node array, list of row views), each answer required to equal the answer on a fresh object with the original values (C14/<primitive>/answer-depends-on-call-history). Exact numeric boundaries: extreme_opposite_latitudes / extreme_equatorial (denominator of d_a_max exactly 0), apexInside_quarter_turn, intersection_at_endpoint, same_circle_not_diff, interior_sign; generated as arc classes (opposite latitudes, exact quarter turns, half turn minus 2e-3..2e-5 rad, end points on equator/poles/prime meridian/antimeridian). Floating point: plane_residual_error (in the standard model of rounding, any u <= 1/64, any per-operation rounding, the computed (a x b).p of correctly rounded unit points is within 69u of the exact value), plane_test_rejects / plane_test_accepts / margin_decides_plane_test (the 1e-6 margin decides the plane test of point_within_gca for every such arithmetic), double_plane_thresholds (MACHINE_EPSILON meets the rejection but not the acceptance condition; ERROR_TOLERANCE*|n| meets both). Three of the four tolerance findings were repaired (fixes 53a93f9b plane test relative to the lengths, 17008975 apex from the circle's normal); the end-point-snapped-to-pole finding stays listed (its patch fixes/C14-extreme-endpoint-latitude.patch needs C13's model to follow)."),
+    note=_TB + "Modelled, not verified: IEEE evaluation inside the three functions other than the plane residual of point_within_gca (that one is bounded by plane_residual_error in the standard rounding model, overflow/underflow excluded; the betweenness sign tests, the intersection candidate and the latitude value are only tested, on inputs >=1e-6 rad from every decision "
          "boundary); latitude VALUE compared at ERROR_TOLERANCE / 4 ulp of sin(lat) (float clause, test level); the same-great-circle "
          "branch of gca_gca_intersection and directed arcs are outside the property. Regenerated ERROR_TOLERANCE/MACHINE_EPSILON are "
          "re-proved to lie far inside the margin each run (library_tolerances_below_margin). That the implementation behaves like a function of the values (no aliasing or in-place update of caller arrays) is test level: byte comparison plus shared-object call sequences; float32 arguments are only noted.",
@@ -335,8 +334,7 @@ CHECKS["C05"] = dict(
           "renumbering/start-corner/subdivision at Float. Part J: the integrand both Jacobian routines evaluate is proved (over R, any corners, any parameter point with F != 0) to be the area element |dP/da x dP/db| of the code's parametrisation P = F/|F| (bary_area_element, gauss_area_element, via normalize_hasDerivAt and the exact partial derivatives baryF_partial_*/gaussF_partial_*), with closed forms jacCore_eq_triple = |F.(AxB)|/|F|^3, jacBary_closed = |n1.(n2xn3)|/(2|F|^3), jacGauss_closed = |1-b||n1.(n2xn3)|/|F|^3 - so the table theorems are about quadrature of the true solid-angle density. The accept/reject decision is part of the model: Area.supported (rule, order) is proved equal to the regenerated table keys for every natural number (tri_keys, gauss_keys, supported_iff_table) and to cover the property's quantifier (supported_quantifier); the harness requires every accepted (rule, order) in 0..13 to be accepted and answered consistently (total = sum, integrate(1) = sum, integrate(data) = areas.data, latlon=True/False equal) by every public entry - compute_face_areas, calculate_total_face_area, face_areas, UxDataArray.integrate - and an exception through any entry on an input inside the quantifier is a spec failure C05/raises/<rule>/<order>/<Exception> with the call as replay."),
     note=_TB + "Modelled, not verified: IEEE rounding, libm sin/cos/sqrt/atan2, numba JIT, np.sum; the flip identity of exact spherical area is a "
          "hypothesis of fan_shift. The snapshot's compute_face_areas(latlon=False) dropped z (Lean: asis_cartesian_area_zero, "
-         "asis_violates_input_independence); repaired by fix afa9bf59. float32 coordinates raise a numba TypingError (outside the quantifier, "
-         "reported only). The step from the area element to the area integral (change of variables) and the quadrature error of the non-polynomial density 1/|F|^3 are not proved; the accuracy thresholds stay tests. Orders the model rejects are probed only in forked children of a subprocess and recorded, not judged: on the current tree gaussian >= 11 crashes the interpreter (SIGSEGV) and gaussian 0 / triangular 0,2,3,5,6,7,9,11,13 are silently accepted by the compiled kernels with meaningless numbers (no validation in compute_face_areas) - outside the property's quantifier, reported only.",
+         "asis_violates_input_independence); repaired by fix afa9bf59. float32 coordinates are converted to float64 since fix e64833e8. The step from the area element to the area integral (change of variables) and the quadrature error of the non-polynomial density 1/|F|^3 are not proved; the accuracy thresholds stay tests. Orders the model rejects are probed only in forked children of a subprocess and recorded, not judged: on the current tree gaussian >= 11 crashes the interpreter (SIGSEGV) and gaussian 0 / triangular 0,2,3,5,6,7,9,11,13 are silently accepted by the compiled kernels with meaningless numbers (no validation in compute_face_areas) - outside the property's quantifier, reported only.",
     technique="Lean 4: regenerated-table theorems (decide +kernel) + theorems over a hand model + differential correspondence with a Lean-evaluated Float spec",
 )
 
@@ -352,11 +350,11 @@ CHECKS["C13"] = dict(
           "fixes 1bade8c0, 55464bc2), asis_pole_missed, asis_false_pole (known findings). Tie: Grid.bounds vs the Lean transcription run at Float on "
           "generated convex 3..8-gons (anywhere, poleward-bulging edges, prime/anti-meridian, corner at a pole, pole enclosed, either start), "
           "and the verdict on the implementation's box is a Lean-evaluated oracle independent of the helpers (64 samples per edge + analytic "
-          "apex, orientation determinants for the pole, largest-gap longitude hull; 1e-9 rad), plus a directed stream of faces across lon 0 / +-180 listed from every start corner in both orientations. The FORM of the coordinate input is a random dimension of every case: dtype float64/float32/int64/int32/Python ints (integer forms on whole-degree lattice faces), construction through from_topology, open_grid(vertices, latlon=True), open_grid(xyz, radius 1/6371/0.25) and from_dataset, longitudes in [-180,180) or [0,360), with or without normalize_cartesian_coordinates(); the Lean oracle judges against the positions exactly as supplied (float32: 2e-5 rad). This dimension exposed a further defect repaired by fix e9d23560 (bounds computed from non-unit / float32 node vectors). SIZE is a random dimension of every face: diameter log-uniform from 1e-7 rad (sub-metre) to 1.2 rad, anisotropic faces down to ~1e-6 rad thin (thin in latitude, in longitude, oblique), at every location class incl. faces a few diameters beside a pole and faces with one or two corners exactly on the equator; the verdict tolerance scales with the face, clamp(1e-6*diameter, 1e-12, 1e-9) rad; an exception from Grid.bounds on an admissible face is a spec failure."),
+          "apex, orientation determinants for the pole, largest-gap longitude hull; 1e-9 rad), plus a directed stream of faces across lon 0 / +-180 listed from every start corner in both orientations. The FORM of the coordinate input is a random dimension of every case: dtype float64/float32/int64/int32/Python ints (integer forms on whole-degree lattice faces), construction through from_topology, open_grid(vertices, latlon=True), open_grid(xyz, radius 1/6371/0.25) and from_dataset, longitudes in [-180,180) or [0,360), with or without normalize_cartesian_coordinates(); the Lean oracle judges against the positions exactly as supplied (float32: 2e-5 rad). This dimension exposed a further defect repaired by fix e9d23560 (bounds computed from non-unit / float32 node vectors). SIZE is a random dimension of every face: diameter log-uniform from 1e-7 rad (sub-metre) to 1.2 rad, anisotropic faces down to ~1e-6 rad thin (thin in latitude, in longitude, oblique), at every location class incl. faces a few diameters beside a pole and faces with one or two corners exactly on the equator; the verdict tolerance scales with the face, clamp(1e-6*diameter, 1e-12, 1e-9) rad; an exception from Grid.bounds on an admissible face is a spec failure. The pole test is the winding of the boundary about the polar axis (fix 982ba32d; the crossing-parity transcription stays as the AS-IS model with its Lean counterexamples asis_pole_missed / asis_false_pole): winding_multiple_of_two_pi (for EVERY closed ring off the axis the sum of wrapped longitude increments is an integer multiple of 2pi) and pole_flag_iff_winding (the flag is raised iff that integer is non-zero, and for exactly one pole); pole_face_partial then gives the pole latitude and [0,2pi] for a flagged face."),
     note=_TB + "Only tested (not proved): that the parity flag of _pole_point_inside_polygon agrees with 'pole strictly inside' (it does not: "
          "see the known findings), that the corner longitudes span the boundary's longitudes (monotonicity of longitude along a pole-free arc; used by the oracle's largest-gap hull), "
          "attainment for pole faces, IEEE rounding, the ERROR_TOLERANCE clip/pole snap, np.mod/deg2rad, gca_gca_intersection/point_within_gca "
-         "(idealised in the model, C14). Generated faces keep the pole at least 1e-4 of their diameter away from every edge's great circle (or exactly on a corner). The comparison with the Lean transcription (not the oracle verdict) is skipped where the reference arc only touches the boundary: a corner exactly on longitude 0, the point (1,0,0) on an equatorial edge, a corner within 1e-7 rad of a pole (end-point rounding of point_within_gca, C14). Known findings: 9, all about the pole-parity count or ERROR_TOLERANCE: Equator branch (incl. two equator corners across lon 0), corner on lon 0 (pole missed / false pole / assert), crossings closer than 1e-8, snap zone within 1.414e-4 rad of a pole (wrong box / assert), float32 pole corner (not tight / not enclosed). dtype promotion / conversion of the supplied coordinates (np.deg2rad of integer or float32 arrays, the float64 per-edge tables, normalisation of non-unit xyz) is only exercised by the form dimension, not modelled - the model is over a field. For faces with a corner exactly on longitude 0 the model/implementation comparison is skipped (end-point rounding of point_within_gca, C14); the oracle verdict is still applied. A numba TypingError for a coordinate dtype is noted, not judged (C08). Known findings: 4 (two pole-parity classes, corner on lon 0 => false pole, float32 pole corner).",
+         "(idealised in the model, C14). Generated faces keep the pole at least 1e-4 of their diameter away from every edge's great circle (or exactly on a corner). The comparison with the Lean transcription (not the oracle verdict) is skipped where the reference arc only touches the boundary: a corner exactly on longitude 0, the point (1,0,0) on an equatorial edge, a corner within 1e-7 rad of a pole (end-point rounding of point_within_gca, C14). Known findings: 9, all about the pole-parity count or ERROR_TOLERANCE: Equator branch (incl. two equator corners across lon 0), corner on lon 0 (pole missed / false pole / assert), crossings closer than 1e-8, snap zone within 1.414e-4 rad of a pole (wrong box / assert), float32 pole corner (not tight / not enclosed). dtype promotion / conversion of the supplied coordinates (np.deg2rad of integer or float32 arrays, the float64 per-edge tables, normalisation of non-unit xyz) is only exercised by the form dimension, not modelled - the model is over a field. For faces with a corner exactly on longitude 0 the model/implementation comparison is skipped (end-point rounding of point_within_gca, C14); the oracle verdict is still applied. A numba TypingError for a coordinate dtype is noted, not judged (C08). Known findings: 4 (two pole-parity classes, corner on lon 0 => false pole, float32 pole corner). Not proved: that a convex face has winding number +-1 exactly when a pole is strictly inside and that the orientation rule picks the right pole (decided per face by the determinant oracle); np.arctan2 is a parameter of the model. After fix 982ba32d the comparison with the transcription is skipped only for a corner within 1e-7 rad of a pole; remaining known findings: 4, all ERROR_TOLERANCE policy (snap zone within 1.414e-4 rad of a pole: wrong box / assert; float32 pole corner: not tight / not enclosed); the 5 parity-count findings are fixed.",
     technique="Lean 4 theorems (field/real algebra, induction over edge lists) over a hand model + differential correspondence with a Lean-evaluated sampling oracle",
 )
 
@@ -438,7 +436,6 @@ CHECKS["C08"] = dict(
           "semantics, numpy/xarray/sklearn/shapely/matplotlib behind the observations, results of isel/subset/get_dual/copy (opaque terms; "
           "observed by a digest of the returned grid). Inventory attributes (dims, sizes, coordinates, connectivity, descriptors) and "
           "to_xarray('ugrid') are judged by the property's export clause (superset with fresh values); quadrature orders restricted to the "
-          "documented ones; normalize_cartesian_coordinates / construct_face_centers are mutators and not part of histories. One known finding "
-          "(JIT on: float32 Cartesian areas raise a numba TypingError, JIT off they do not).",
+          "documented ones; normalize_cartesian_coordinates / construct_face_centers are mutators and not part of histories. No known finding left (the float32 TypingError was repaired by fix e64833e8).",
     technique="Lean 4 theorems over a table-driven memo/cache state machine whose read/write table is regenerated from the source by an ast translator and re-proved equal to the model's (as-is counterexamples) + history-fuzzing correspondence with Lean-evaluated trace spec",
 )
